@@ -443,3 +443,54 @@ def INFERRED(p):
 
 
 BUILTINS = {k: v for k, v in list(globals().items()) if k.isupper() or k in ("Witness",)}
+
+
+# ---- interval views (concrete) ----------------------------------------------------------------------------------
+def _pair(el):
+    if isinstance(el, str):
+        a, b = el[0], el[-1]
+    else:
+        a, b = el
+    return ord(a), ord(b)
+
+
+def RV(lst):
+    out = set()
+    for el in lst:
+        a, b = _pair(el)
+        out.update(range(a, b + 1))
+    return out
+
+
+def CV(lst):
+    return {ord(c) for c in lst}
+
+
+def VU(*vs):
+    out = set()
+    for v in vs:
+        out |= v
+    return out
+
+
+def VM(a, b):
+    return a - b
+
+
+def VEQ(a, b):
+    return a == b
+
+
+def WFR(lst):
+    return all(0 <= _pair(el)[0] <= _pair(el)[1] <= 0x10FFFF for el in lst)
+
+
+def WFC(lst):
+    return all(isinstance(c, str) and len(c) == 1 for c in lst)
+
+
+def LEN(lst):
+    return len(lst)
+
+
+BUILTINS = {k: v for k, v in list(globals().items()) if k.isupper() or k in ("Witness",)}
